@@ -285,6 +285,9 @@ impl Precedence for Format<'_, Formula> {
 
     fn mandatory_parentheses(&self) -> bool {
         match self.0 {
+            // a chain t1 < t2 < t3 is printed as a conjunction: as an operand it needs parentheses of its own,
+            // otherwise a negation in front of it applies to the first conjunct only
+            Formula::AtomicFormula(AtomicFormula::Comparison(c)) => c.guards.len() > 1,
             Formula::AtomicFormula(_) | Formula::QuantifiedFormula { .. } => false,
             Formula::UnaryFormula { .. } | Formula::BinaryFormula { .. } => true,
         }
